@@ -498,6 +498,12 @@ func (css *Consensus) batchWorker() {
 			batchCurSize = 0
 
 		case <-batchTimer.C:
+			// Nothing was added (the timer was started by an item
+			// that failed to be added): there is nothing to commit.
+			if batchCurSize == 0 {
+				continue
+			}
+
 			// Commit
 			if err := css.batchingState.Commit(css.ctx); err != nil {
 				logger.Errorf("error commiting batch after reaching max age: %s", err)
